@@ -449,6 +449,7 @@ func runC20(ci interface{}, st *CaseStats) error {
 	}
 	n.rec.Problems()
 	nontrivial := false
+	nRejected, nServed, nHard := 0, 0, 0
 	for ri, r := range c.Reqs {
 		// the engine fails once during this request (a storage error answered with an error is fine; a crash or an
 		// inconsistent metric is not)
@@ -508,11 +509,16 @@ func runC20(ci interface{}, st *CaseStats) error {
 		}
 		if rejected {
 			st.Label("rejected:" + r.API + ":" + r.Kind)
+			nRejected++
 		} else {
 			st.Label("served:" + r.API + ":" + r.Kind)
+			nServed++
 		}
-		nontrivial = true
+		if r.StorageFault != "" || r.Kind == "watch" || r.Kind == "stream" || r.Rev > 1<<39 || r.Rev < -(1<<39) || len(r.Key) > 256 {
+			nHard++
+		}
 	}
+	nontrivial = nRejected > 0 && nServed > 0 && nHard > 0
 	// metric names reached
 	for name := range n.rec.Seen {
 		st.Label("metric:" + name)
@@ -570,7 +576,7 @@ func probeC20NonUTF8WatchPrefix() (bool, string) {
 
 var specC20 = &Spec{
 	ID:   "C20",
-	Rule: "case = 3..25 hostile requests through the real etcd and native gRPC handler objects on a leader whose metrics client is the real Prometheus client (process-global registry) and whose engine sits behind the storage-metrics wrapper: keys / range ends / values from {empty, ordinary, non-UTF-8, bytes <= '$', NUL, internal-key look-alikes, 300 B..70 KB, '/', the compaction and election record names, random bytes}, revisions from {0, +-1, min/max int64, 1888 (partition magic), near current, +-2^40, random}, limits incl. negative and absurdly large, missing sub-messages, a storage engine that fails once (iterator / get / commit) during 12% of the requests, all 24 unsupported transaction shapes, watch streams scripted with creates (incl. negative = range-stream revisions, arbitrary bounds), cancels of unknown ids and empty messages. After every request a canary (create a fresh key, wait until readable, read back point and range, receive its event on a watch opened before) must pass. Oracle: the handler returns without panic; the metrics recorder saw no panic inside the Prometheus client and no metric name emitted with two different label-name sets; the canary passes; the process stays alive (the driver treats worker death as a violation and attributes it to the case in flight). Non-trivial = at least one hostile request followed by a passing canary; distinct = SHA-1 of the case",
+	Rule: "case = 3..25 hostile requests through the real etcd and native gRPC handler objects on a leader whose metrics client is the real Prometheus client (process-global registry) and whose engine sits behind the storage-metrics wrapper: keys / range ends / values from {empty, ordinary, non-UTF-8, bytes <= '$', NUL, internal-key look-alikes, 300 B..70 KB, '/', the compaction and election record names, random bytes}, revisions from {0, +-1, min/max int64, 1888 (partition magic), near current, +-2^40, random}, limits incl. negative and absurdly large, missing sub-messages, a storage engine that fails once (iterator / get / commit) during 12% of the requests, all 24 unsupported transaction shapes, watch streams scripted with creates (incl. negative = range-stream revisions, arbitrary bounds), cancels of unknown ids and empty messages. After every request a canary (create a fresh key, wait until readable, read back point and range, receive its event on a watch opened before) must pass. Oracle: the handler returns without panic; the metrics recorder saw no panic inside the Prometheus client and no metric name emitted with two different label-name sets; the canary passes; the process stays alive (the driver treats worker death as a violation and attributes it to the case in flight). Non-trivial = the case has a request the node rejected, one it served, and one of the hard kinds (storage fault during the request, a watch or range stream, a revision beyond +-2^39, a key longer than 256 bytes), each followed by a passing canary; distinct = SHA-1 of the case",
 	Gen:  genC20,
 	New:  func() interface{} { return &c20Case{} },
 	Run:  runC20,
